@@ -56,6 +56,10 @@ CHECKS = {
             "reference-arithmetic monitor + cross-core comparison on every tick of the real TimerScheduler.advance and TimerContext::tick_timers; icontract postcondition on advance()",
             "Held on all period pairs 0..12 x 0..12 x enabled, sampled large periods, every-cycle and gap sequences with resets and snapshot/restore points: fire pattern, next targets strictly in the future, ISR bits, exactly-once on every-cycle sequences, Python == Rust.",
             "Unit level (scheduler objects); the instruction-boundary re-phasing of CoreRuntime is covered at machine level by C12/C16.", "DESIGN.md 3/C13"),
+    "C15": ("exploration",
+            "reference HD61202-pair monitor after every window access on the real Python HD61202Controller and Rust LcdController, cross-model comparison, complete VRAM-bit -> pixel ownership enumeration, per-write display diff",
+            "Held (modulo listed findings) on seeded histories over all 16 low-nibble decodings and mirrors, on all sequences of <= 2/3 operations over a 24-op alphabet, and on the complete 8192-bit flip map of both models (Rust under 5 start lines): state, read values, one-owner-per-pixel, one column per data write.",
+            "Reference is the protocol text of the property; display composition is compared per model only.", "DESIGN.md 3/C15"),
     "C17": ("other",
             "complete comparison of live tables dumped from the running Python modules and the real Rust crate + behavioural recovery of private tables by executed probes on both cores",
             "All 256 opcode entries x 4 fields, register width/layout copies, ~100 constants, 87 key codes, 15 PRE bytes, 58 single-operand opcodes x 2 prefixes, both vectors, both Binary Ninja views: compared completely (finite space).",
